@@ -2,11 +2,13 @@
 
 REGISTRY = {
     "C01": "harness.c01_reliable",
+    "C02": "harness.c02_drain",
     "C05": "harness.c05_nocrash",
     "C07": "harness.c07_rtp",
     "C08": "harness.c08_sctp",
     "C10": "harness.c10_jitter",
     "C12": "harness.c12_router",
+    "C13": "harness.c13_channel",
     "C17": "harness.c17_serial",
     "C18": "harness.c18_rr",
 }
